@@ -644,10 +644,17 @@ impl Drop for OsOpaqueIpcChannel {
     fn drop(&mut self) {
         // Make sure we don't leak!
         //
-        // The `OsOpaqueIpcChannel` objects should always be used,
-        // i.e. converted with `to_sender()` or `to_receiver()` --
-        // so the value should already be unset before the object gets dropped.
-        debug_assert!(self.fd == -1);
+        // The `OsOpaqueIpcChannel` objects are normally used,
+        // i.e. converted with `to_sender()` or `to_receiver()`,
+        // which unsets the value. One that never got converted
+        // (a message that was dropped without being deserialized,
+        // could not be deserialized, or did not reference all its channels)
+        // still owns the descriptor it was received with.
+        if self.fd >= 0 {
+            unsafe {
+                libc::close(self.fd);
+            }
+        }
     }
 }
 
